@@ -15,6 +15,11 @@ package main
 //                `EnableWatchdog: true` in internal/context (or the field is assigned anywhere else, or its value
 //                is not a literal): go-diameter then starts a watchdog goroutine per connection, which learns of
 //                the connection's end only if a message was read on it after the handshake
+//   syncDial     the DialNetworkTLS call is a plain call of the function's own task: the function contains the call, not
+//                inside a function literal, and contains no `go` statement at all (a dial or an exchange started in a
+//                task of its own can outlive the request that started it)
+//   dialDeadlineMs  when the dial is not synchronous: the duration of a time.After case of a select that does not
+//                receive from the answer channel (the deadline after which the request stops waiting), else 0
 
 import (
 	"fmt"
@@ -32,6 +37,8 @@ type clientFacts struct {
 	timeoutMs                                  int
 	clientField                                string
 	watchdog                                   bool
+	syncDial                                   bool
+	dialDeadlineMs                             int
 }
 
 // EnableWatchdog of the sm.Client stored in field `field` of the subscriber context
@@ -184,6 +191,72 @@ func astClientFacts(file, sendFn, handlerFn string) (clientFacts, error) {
 				cf.ownChan = true
 				cf.buffered = capN >= 1
 			}
+			// is the dial a plain call of this function's own task?
+			goStmts, dialTop, dialNested := 0, 0, 0
+			var walk func(n ast.Node, inLit bool)
+			walk = func(n ast.Node, inLit bool) {
+				ast.Inspect(n, func(k ast.Node) bool {
+					switch x := k.(type) {
+					case *ast.GoStmt:
+						goStmts++
+					case *ast.FuncLit:
+						if !inLit {
+							walk(x.Body, true)
+							return false
+						}
+					case *ast.CallExpr:
+						if strings.HasSuffix(exprStr(x.Fun), "DialNetworkTLS") {
+							if inLit {
+								dialNested++
+							} else {
+								dialTop++
+							}
+						}
+					}
+					return true
+				})
+			}
+			walk(fd.Body, false)
+			cf.syncDial = goStmts == 0 && dialTop == 1 && dialNested == 0
+			if !cf.syncDial {
+				// a select with a timer that is not the answer select
+				ast.Inspect(fd.Body, func(n ast.Node) bool {
+					sel, ok := n.(*ast.SelectStmt)
+					if !ok {
+						return true
+					}
+					recvAnswer, ms := false, 0
+					for _, c := range sel.Body.List {
+						cc := c.(*ast.CommClause)
+						switch st := cc.Comm.(type) {
+						case *ast.AssignStmt:
+							if u, ok := st.Rhs[0].(*ast.UnaryExpr); ok && u.Op == token.ARROW && received != "" && exprStr(u.X) == received {
+								recvAnswer = true
+							}
+						case *ast.ExprStmt:
+							if u, ok := st.X.(*ast.UnaryExpr); ok && u.Op == token.ARROW {
+								if call, ok := u.X.(*ast.CallExpr); ok && exprStr(call.Fun) == "time.After" && len(call.Args) == 1 {
+									if be, ok := call.Args[0].(*ast.BinaryExpr); ok && be.Op == token.MUL {
+										if bl, ok := be.X.(*ast.BasicLit); ok {
+											n, _ := strconv.Atoi(bl.Value)
+											switch exprStr(be.Y) {
+											case "time.Second":
+												ms = n * 1000
+											case "time.Millisecond":
+												ms = n
+											}
+										}
+									}
+								}
+							}
+						}
+					}
+					if !recvAnswer && ms > 0 && cf.dialDeadlineMs == 0 {
+						cf.dialDeadlineMs = ms
+					}
+					return true
+				})
+			}
 		case handlerFn:
 			sends, guarded := 0, 0
 			ast.Inspect(fd.Body, func(n ast.Node) bool {
@@ -230,8 +303,8 @@ func init() {
 				os.Exit(1)
 			}
 			cf.watchdog = astWatchdog(cf.clientField)
-			fmt.Fprintf(&sb, "/-- %s: %s / %s; internal/context: the sm.Client in field %q; serial: no call site above is async -/\ndef %s : Cfg := ⟨%v, %v, %v, %v, %d, %v, %v⟩\n\n", c.file, c.send, c.handler,
-				cf.clientField, c.name, cf.closesConn, cf.ownChan, cf.buffered, cf.nonBlocking, cf.timeoutMs, cf.watchdog, serial[c.send])
+			fmt.Fprintf(&sb, "/-- %s: %s / %s; internal/context: the sm.Client in field %q; serial: no call site above is async -/\ndef %s : Cfg := ⟨%v, %v, %v, %v, %d, %v, %v, %d, %v⟩\n\n", c.file, c.send, c.handler,
+				cf.clientField, c.name, cf.closesConn, cf.ownChan, cf.buffered, cf.nonBlocking, cf.timeoutMs, cf.watchdog, cf.syncDial, cf.dialDeadlineMs, serial[c.send])
 		}
 		sb.WriteString("end Chf.Gen\n")
 		fmt.Print(sb.String())
